@@ -11,7 +11,7 @@ META = {
     'technique': 'writer template of ChangeBlock._format extracted by abstract interpretation and cut into lines; marked-language capture '
                  'agreement of the header line with topline, of each key=value item with keyvalue / value_re, of the trailer with endline; '
                  'abstract transition system of parse_changelog (state × line language) used to show that every line class of a well-formed '
-                 'block takes a warning-free branch that stores the line where _format reads it back; storage/emit order rules for every content-dependent layout of the block writer; line-primitive rule (a text is cut into lines at newlines only); line-primitive rule extended: the text that is cut into lines is not rewritten on its way to the cut; whole well-formed texts through the interpreted constructor and str() (no warning, byte-for-byte, blocks in file order); versions of the Policy grammar can be shown (the interpreted family of C14)',
+                 'block takes a warning-free branch that stores the line where _format reads it back; storage/emit order rules for every content-dependent layout of the block writer; line-primitive rule (a text is cut into lines at newlines only); line-primitive rule extended: the text that is cut into lines is not rewritten on its way to the cut; whole well-formed texts through the interpreted constructor and str() (no warning, byte-for-byte, blocks in file order); versions of the Policy grammar can be shown (the interpreted family of C14); headings with many key=value items; no regex flag at the position of maxsplit / count; a test the transition model cannot decide makes the routing rule undecided, not a finding',
     'level_text': 'Static decision for all texts of the deb-changelog(5) grammar as stated in the property: every header/trailer the writer '
                   'can emit is matched with groups on the written slots (so parsed attributes equal what was written and re-format is '
                   'identical), change/blank lines are routed warning-free to the change list, header/trailer lines to their branches, EOF '
@@ -677,7 +677,11 @@ def r7_texts(rep, src, tier):
     docs = [[(1, 1, '')], [(1, 2, ''), (2, 1, '')], [(3, 1, ''), (1, 3, ''), (2, 2, '')], [(2, 1, ', binary-only=yes'), (1, 1, '')], [(1, 0, ''), (2, 1, '')],
             [(1, 1, ' (HIGH for users of x)'), (2, 1, '')], [(2, 2, ', binary-only=yes, closes=123')], [(3, 1, ' (see NEWS), binary-only=yes'), (2, 1, ''), (1, 1, '')],
             # (more items than any small number: a cut that stops early leaves the rest in the last value)
-            [(1, 1, ', binary-only=yes, closes=123, x-team=qa, x-origin=vendor, x-more=1'), (2, 1, ', a=b, c=d, e=f, g=h')]]
+            [(1, 1, ', binary-only=yes, closes=123, x-team=qa, x-origin=vendor, x-more=1'), (2, 1, ', a=b, c=d, e=f, g=h')],
+            # (keys are case-insensitive and are kept as written; a key with capitals after another item, and right after the urgency)
+            [(1, 1, ', Binary-Only=yes'), (2, 1, ', closes=123, XS-Upload-Hint=delayed-5')], [(3, 1, ', XS-Team-Upload=yes, closes=7')],
+            # (the commentary of the urgency may hold a semicolon: the items start after the FIRST one of the heading)
+            [(1, 1, ' (fixes data loss; please upgrade)'), (2, 1, ' (a; b), binary-only=yes')]]
     for doc in docs:
         lines, want = [], []
         for j, (i, nch, extra) in enumerate(doc):
